@@ -28,7 +28,7 @@ def slenAt (ls : Lines) (r : Int) : Int := match lineAt ls r with | some ln => u
 /-- `lbuf_indents(lb, r)` -/
 def indents (ls : Lines) (r : Int) : Int := match lineAt ls r with
   | none => 0
-  | some ln => ((ln.takeWhile (fun c => ucIsSpace c)).length : Nat)
+  | some ln => ((ln.takeWhile (fun c => c != 10 && ucIsSpace c)).length : Nat)
 
 /-- `lbuf_eol(lb, row)` -/
 def eol (ls : Lines) (r : Int) : Int := let n := slenAt ls r; if n != 0 then n - 1 else 0
